@@ -131,6 +131,38 @@ Theorem C12_mixed_reply_fails : forall s ms r1 r2 k1 k2 lo1 hi1 lo2 hi2,
 Proof. exact mixed_reply_fails. Qed.
 Print Assumptions C12_mixed_reply_fails.
 
+(* the premise holds in every reachable state (invariant `Inv` of Proofs/ClientMgrInv.v: init_inv, run_inv) ... *)
+Theorem C12_reachable_ranges_disjoint : forall idstr qc bc gate es,
+  ranges_disjoint (batches (m (fst (run (init idstr qc bc gate) es)))).
+Proof. exact reachable_ranges_disjoint. Qed.
+Print Assumptions C12_reachable_ranges_disjoint.
+
+(* ... so for every configuration and every history the two theorems hold without it *)
+Theorem C12_reply_goes_to_owner_reachable : forall idstr qc bc gate es ms s1 o r k loA hiA,
+  let s := fst (run (init idstr qc bc gate) es) in
+  handle_back s (FArray ms) = ROk s1 o ->
+  In r (resps ms) -> id_as_number (rs_id r) = Some k ->
+  In (loA, hiA) (map fst (batches (m s))) -> loA <= k < hiA ->
+  exists h,
+    alookup range_eqb (loA, hiA) (batches (m s)) = Some h /\
+    (forall r', In r' (resps ms) -> exists k', id_as_number (rs_id r') = Some k' /\ loA <= k' < hiA) /\
+    batches (m s1) = aremove range_eqb (loA, hiA) (batches (m s)) /\
+    let filled := filled_of loA (N.to_nat (hiA - loA)) (resps ms) in
+    o = complete s h (CBatch filled) /\
+    length filled = N.to_nat (hiA - loA) /\
+    forall j, (j < N.to_nat (hiA - loA))%nat -> nth j filled placeholder = entry_of loA (resps ms) j.
+Proof. exact reply_goes_to_owner_reachable. Qed.
+Print Assumptions C12_reply_goes_to_owner_reachable.
+
+Theorem C12_mixed_reply_fails_reachable : forall idstr qc bc gate es ms r1 r2 k1 k2 lo1 hi1 lo2 hi2,
+  let s := fst (run (init idstr qc bc gate) es) in
+  In r1 (resps ms) -> id_as_number (rs_id r1) = Some k1 -> In (lo1, hi1) (map fst (batches (m s))) -> lo1 <= k1 < hi1 ->
+  In r2 (resps ms) -> id_as_number (rs_id r2) = Some k2 -> In (lo2, hi2) (map fst (batches (m s))) -> lo2 <= k2 < hi2 ->
+  (lo1, hi1) <> (lo2, hi2) ->
+  exists s1 f, handle_back s (FArray ms) = RFatal s1 [] f.
+Proof. exact mixed_reply_fails_reachable. Qed.
+Print Assumptions C12_mixed_reply_fails_reachable.
+
 (* ------------------------------------------------------------------ HTTP client *)
 
 Theorem C12_http_positional : forall lo n rs filled,
